@@ -603,21 +603,21 @@ theorem wf_mono (MOk : DefaultMatcher → Matcher → Prop) (l l' : Nat) (hl : l
   | union op a b => exact ⟨by have := h.1; omega, h.2.1, h.2.2⟩
 
 /-- **the whole-expression round trip, at the level of `parseTop`** -/
-theorem parseTop_printed (MOk : DefaultMatcher → Matcher → Prop) (e : PExpr) (rv gv : List (List Char × Bool))
-    (hm : MatcherRT (mkCtx (printExpr e) rv gv) MOk) (hw : wf MOk 2 e) :
-    ∃ e', parseTop (mkCtx (printExpr e) rv gv) (printExpr e) = (some e', { rest := [], errs := [], needs := [] }) ∧
+theorem parseTop_printed (MOk : DefaultMatcher → Matcher → Prop) (e : PExpr) (rv gv : List (List Char × Bool)) (re : List (List Char × Nat × Nat))
+    (hm : MatcherRT (mkCtx (printExpr e) rv gv re) MOk) (hw : wf MOk 2 e) :
+    ∃ e', parseTop (mkCtx (printExpr e) rv gv re) (printExpr e) = (some e', { rest := [], errs := [], needs := [] }) ∧
       dropSpans e' = dropSpans e := by
   have hlen := sz_le_length e
   have hnl := nor_lt e
-  have hpe := (levels (mkCtx (printExpr e) rv gv) MOk hm e).2.2 hw
+  have hpe := (levels (mkCtx (printExpr e) rv gv re) MOk hm e).2.2 hw
   obtain ⟨e', h2, h1⟩ := hpe (fuelFor (printExpr e)) (printExpr e) [] { rest := printExpr e, errs := [], needs := [] }
     (by simpa using skipWs_printExpr e []) noAndOp_nil (by simp only [fuelFor]; omega)
   refine ⟨e', ?_, h2⟩
-  have hstop : orLoop (mkCtx (printExpr e) rv gv) (fuelFor (printExpr e) - 1 - nor e) (some e')
+  have hstop : orLoop (mkCtx (printExpr e) rv gv re) (fuelFor (printExpr e) - 1 - nor e) (some e')
       (St.withRest { rest := printExpr e, errs := [], needs := [] } []) = (some e', { rest := [], errs := [], needs := [] }) := by
     have : fuelFor (printExpr e) - 1 - nor e = (fuelFor (printExpr e) - 2 - nor e) + 1 := by simp only [fuelFor]; omega
     rw [this]; exact orLoop_stop _ _ _ _ (noOrOp_nil _ _)
-  have h1' : parseExpr (mkCtx (printExpr e) rv gv) (fuelFor (printExpr e)) { rest := printExpr e, errs := [], needs := [] } =
+  have h1' : parseExpr (mkCtx (printExpr e) rv gv re) (fuelFor (printExpr e)) { rest := printExpr e, errs := [], needs := [] } =
       (some e', { rest := [], errs := [], needs := [] }) := by
     have := h1; simp only [St.withRest] at this hstop; rw [this, hstop]
   simp only [parseTop, h1']
